@@ -26,7 +26,7 @@ CHECKS.update({
     "C15": (MC, "artefact check of the generated API (no way to obtain an enum element except through a constructor) + TLC trace validation: <enum>_case / _cases / new_<enum> checked by ApiTrace!EnumBad after every close and new_<enum>", "enum theories of the corpus", "3 C15"),
     "C16": (MC, "TLC evaluates SemiNaive!ExactlyOnce over all 2^n labellings of every rule family, on the plan extracted from the emitted code (comment block and index fields bound in the body); TLAPS lemma for the ideal plan in the thorough tier", "extraction by tools/extract.py; a parse failure is a tool error", "3 C16"),
     "C17": (MC, "inheritance as implicit reference stages; TLC trace validation of families of histories that differ in when morphisms, dom/cod facts and member facts arrive; known finding KF-C17-1 classified by a counterfactual re-run", "one model declaration, member predicates over global types, acyclic functional morphism graphs", "3 C17"),
-    "C19": ("translation_validation", "structural validation of module-mode vs component-mode output (env structs, link names, rule code) by TLC on Link.tla", "behavioural comparison of the two builds is not part of this revision", "3 C19"),
+    "C19": ("translation_validation", "structural validation of module-mode vs component-mode output (env structs, link names, rule code) by TLC on Link.tla; behavioural: the same API histories executed against a driver built from the module text and one built by process_root() (component libraries), transcripts compared by DetTrace", "component sources for the structural part come from a build with a stand-in rustc; the behavioural part uses the real rustc", "3 C19"),
 })
 CHECKS.update({
     "C12": (MC, "TLC model checking of Build.tla (every file-system mutation one action, crash before each, rustc failure, worker pool) + TLC-enumerated edit/build/crash histories executed on the real CLI (hook verif_fs_point, stand-in rustc), outcomes validated by BuildTrace against clean builds", "4 versions of one theory, 2 components; stand-in rustc", "3 C12"),
